@@ -315,9 +315,14 @@ func (l *Literal) UUID() uuid.UUID {
 			buffer.WriteString("false")
 		}
 	case int64:
-		b := make([]byte, 8)
-		binary.PutVarint(b, v)
-		buffer.Write(b)
+		// A varint needs up to binary.MaxVarintLen64 bytes. Values that fit in 8 bytes
+		// keep the original zero padded 8 byte encoding so their UUIDs do not change.
+		b := make([]byte, binary.MaxVarintLen64)
+		n := binary.PutVarint(b, v)
+		if n < 8 {
+			n = 8
+		}
+		buffer.Write(b[:n])
 	case float64:
 		bs := math.Float64bits(v)
 		b := make([]byte, 8)
